@@ -47,7 +47,22 @@ def replay(cfg, events):
                 aud(e["w"]).addN([v.triple(q) + (Graph(store=aud(e["w"]), identifier=v.gid(q[3])),) for q in e["quads"]])
             elif op == "tx_remove":
                 pat = v.triple(e["pat"])
-                if e["g"] == "*":
+                how = e.get("how", "")
+                if how and e["g"] != "*" and pat == (None, None, None):
+                    # a whole graph emptied through the graph-level entry points: it is a removal like any other and is undone by rollback
+                    ds_ = ConjunctiveGraph(store=aud(e["w"]))
+                    name = v.gid(e["g"])
+                    if how == "drop":
+                        ds_.update("DROP SILENT GRAPH %s" % name.n3())
+                    elif how == "clear":
+                        ds_.update("CLEAR SILENT GRAPH %s" % name.n3())
+                    elif how == "remove_context":
+                        ds_.remove_context(ds_.get_context(name))
+                    elif how == "delete_where":
+                        ds_.update("DELETE WHERE { GRAPH %s { ?s ?p ?o } }" % name.n3())
+                    else:
+                        raise ValueError(how)
+                elif e["g"] == "*":
                     ConjunctiveGraph(store=aud(e["w"])).remove(pat)
                 elif (i + len(events)) % 2 == 0:
                     Graph(store=aud(e["w"]), identifier=v.gid(e["g"])).remove(pat)
